@@ -27,6 +27,22 @@ VERIF = os.path.dirname(os.path.dirname(os.path.abspath(__file__)))
 WORK = os.path.join(VERIF, ".work")
 CRATE = os.path.join(VERIF, "harness", "vh")
 REPO = "/repo"
+# Sensitivity experiments only (never used by a registered command): VERIF_REPO=<scratch worktree>
+# runs the same checks against a copy of the harness crate whose path dependencies point there,
+# with its own work directory, so that seeded changes can be tried without touching /repo.
+ALT_REPO = os.environ.get("VERIF_REPO")
+if ALT_REPO:
+    _tag = re.sub(r"\W+", "_", ALT_REPO.strip("/"))
+    WORK = os.path.join(VERIF, ".work", "alt_" + _tag)
+    _c = os.path.join(WORK, "vh")
+    os.makedirs(WORK, exist_ok=True)
+    shutil.rmtree(_c, ignore_errors=True)
+    shutil.copytree(CRATE, _c, ignore=shutil.ignore_patterns("target", "Cargo.lock"))
+    _t = open(os.path.join(_c, "Cargo.toml")).read().replace('path = "/repo/', 'path = "%s/' % ALT_REPO.rstrip("/"))
+    _t = _t.replace('path = "../../stubs/backtrace"', 'path = "%s"' % os.path.join(VERIF, "stubs", "backtrace"))
+    open(os.path.join(_c, "Cargo.toml"), "w").write(_t)
+    CRATE = _c
+    REPO = ALT_REPO
 TOTAL_MEM_GB = 52
 
 sys.path.insert(0, os.path.join(VERIF, "lib"))
@@ -533,7 +549,7 @@ def main(argv):
         return 2
     obs = [dict(o) for o in spec["obligations"] if tier in o["tiers"]]
     if only:
-        obs = [o for o in obs if only in o["harness"]]
+        obs = [o for o in obs if only in (o["harness"] + o.get("tag", ""))]
     for o in obs:
         caps = plan.TIER_CAPS[tier]
         o.setdefault("cap_s", caps["cap_s"])
@@ -570,9 +586,9 @@ def main(argv):
             log("no obligations for %s in tier %s" % (pid, tier))
             return 2
         # build deps + leaf in base by running the first (cheapest) obligation's compile only
-        first = min(obs, key=lambda o: o.get("est_s", 60))
+        # a harness no obligation uses: every obligation then compiles the leaf crate in its own slot
         bcmd = ["cargo", "kani", "-Z", "stubbing", "-Z", "unstable-options", "--only-codegen",
-                "--harness", first["harness"], "--exact", "--target-dir", base]
+                "--harness", "c00::noop", "--exact", "--target-dir", base]
         tb = time.time()
         with open(os.path.join(logdir, "base_build.log"), "w") as f:
             pb = subprocess.run(bcmd, cwd=CRATE, env=base_env(), stdout=f, stderr=subprocess.STDOUT)
@@ -619,9 +635,9 @@ def main(argv):
                     return
                 # memory-aware admission: estimated need of the next job must fit into what is
                 # available now minus what running jobs are still expected to grow by
-                need = q[0].get("mem_est_gb", 4)
-                reserve = sum(max(0.0, o.get("mem_est_gb", 4) - o.get("_rss_now", 0) / 1048576.0) for o in running)
-                if not running or mem_free_gb() - reserve - 4 >= need:
+                need = q[0].get("mem_est_gb", 5)
+                reserve = sum(max(0.0, o.get("mem_est_gb", 5) - o.get("_rss_now", 0) / 1048576.0) for o in running)
+                if not running or mem_free_gb() - reserve - 8 >= need:
                     ob = q.pop(0)
                     running.append(ob)
             if ob is None:
@@ -643,14 +659,15 @@ def main(argv):
         t.start()
     for t in threads:
         t.join()
-    for s in slots:
-        shutil.rmtree(s, ignore_errors=True)
+    if not os.environ.get("VERIF_KEEP"):
+        for s in slots:
+            shutil.rmtree(s, ignore_errors=True)
 
     # ---- verdicts
     violations = 0
     inconclusive = 0
     known_hits = []
-    replay_dir = os.path.join(VERIF, "replays", pid)
+    replay_dir = os.path.join(WORK if ALT_REPO else VERIF, "replays", pid)
     for r in results:
         if r.status == "SUCCESSFUL":
             continue
@@ -754,6 +771,8 @@ def handle_failure(pid, r, known, replay_dir, logdir, known_hits):
 
 
 def write_evidence(pid, tier, seed, spec, results, wall, violations, note=None):
+    if ALT_REPO:
+        return  # experiments never touch the committed evidence
     os.makedirs(os.path.join(VERIF, "evidence"), exist_ok=True)
     witnesses = [r for r in results if r.ob.get("expect_fail")]
     results = [r for r in results if not r.ob.get("expect_fail")]
